@@ -120,10 +120,44 @@ def t_parse_says_nothing_about_comments(cw, cp, cr, cb):
     cp.ensures = [(c[0], (lambda E, v, o: True)) if c[0] == lab else c for c in cp.ensures]
 
 
+def t_reader_takes_the_first_comment_line_for_the_column_header(cw, cp, cr, cb):
+    # the context that makes a comment line THE column header, tampered: the first comment line of the file instead of the last one in front of the rows
+    C02 = C._import_quietly("contracts.C02")
+    orig = C02.header_ordinal
+    C02.header_ordinal = lambda f: z3.IntVal(0)
+    t_reader_takes_the_first_comment_line_for_the_column_header.undo = lambda: setattr(C02, "header_ordinal", orig)
+
+
+def t_reader_drops_every_comment_that_starts_like_the_column_header(cw, cp, cr, cb):
+    # the reader before the repair: kept = comment lines whose text does not start like the header, wherever they stand (context free)
+    C02 = C._import_quietly("contracts.C02")
+    orig = C02.ghost_axioms
+    from pyvc.values import fresh_name
+
+    def old_axioms(E, f, n_extra, names):
+        k = z3.Int(fresh_name("gk"))
+        row = lambda kk: C02.is_row(n_extra, C02.LINE(f, kk))
+        kept = lambda kk: z3.And(C02.is_comment(n_extra, C02.LINE(f, kk)), z3.Not(C02.starts_like_header(names, C02.LINE(f, kk))))
+        hash_ = lambda kk: C02.is_comment(n_extra, C02.LINE(f, kk))
+        E.assume(C02.NL(f) >= 0)
+        for CNT, ENUM, pred in ((C02.RCNT, C02.RLINE, row), (C02.CCNT, C02.CLINE, kept), (C02.ACNT, C02.ALINE, hash_)):
+            E.assume(CNT(f, 0) == 0)
+            E.assume(z3.ForAll([k], z3.Implies(k >= 0, CNT(f, k + 1) == CNT(f, k) + z3.If(pred(k), 1, 0)), patterns=[CNT(f, k + 1)]))
+            E.assume(z3.ForAll([k], z3.Implies(k >= 0, z3.And(CNT(f, k) >= 0, CNT(f, k) <= k)), patterns=[CNT(f, k)]))
+            E.assume(z3.ForAll([k], z3.Implies(z3.And(k >= 0, pred(k)), ENUM(f, CNT(f, k)) == k), patterns=[CNT(f, k)]))
+
+    C02.ghost_axioms = old_axioms
+    t_reader_drops_every_comment_that_starts_like_the_column_header.undo = lambda: setattr(C02, "ghost_axioms", orig)
+
+
 if __name__ == "__main__":
-    print("unchanged contracts      ->", run() or "all discharged")
+    if len(sys.argv) == 1:
+        print("unchanged contracts      ->", run() or "all discharged")
     for t in (t_no_root_guard, t_three_decimals, t_reset_keeps_ids, t_reset_says_nothing_about_attributes, t_parse_says_nothing_about_fields, t_build_swaps_x_and_y,
-              t_comment_line_keeps_leading_blanks, t_export_drops_one_comment, t_parse_says_nothing_about_comments):
+              t_comment_line_keeps_leading_blanks, t_export_drops_one_comment, t_parse_says_nothing_about_comments,
+              t_reader_takes_the_first_comment_line_for_the_column_header, t_reader_drops_every_comment_that_starts_like_the_column_header):
+        if len(sys.argv) > 1 and not any(a in t.__name__ for a in sys.argv[1:]):
+            continue
         r = run(t)
         if hasattr(t, "undo"):
             t.undo()
